@@ -91,6 +91,24 @@ def parseChunks (s : String) : Option (List (List File)) :=
 /-- forwarded events seen as messages (every event carries stats) -/
 def evAsMsg (e : Event) : Msg := ⟨e.files, some e.stats, e.prog⟩
 
+def parseRFiles (s : String) : Option (List RFile) :=
+  if s == "-" then some [] else
+  (s.splitOn ",").mapM fun e =>
+    match e.splitOn ":" with
+    | [a, b] => do pure ⟨← a.toNat?, ← b.toNat?⟩
+    | _ => none
+
+def parseByRepoOut (s : String) : Option (List (List Nat × Stats)) :=
+  if s == "-" then some [] else
+  (s.splitOn ";").mapM fun e =>
+    match e.splitOn "/" with
+    | [ids, st] => do
+      let ids ← natList? ids
+      match ← parseMsgStats st with
+      | some st => pure (ids, st)
+      | none => none
+    | _ => none
+
 def verdict (model : String) (max : Nat) (evs : List Event) (msgs : List Msg) : String :=
   if checkP max evs msgs then answer model else specFail model (failKey max evs msgs)
 
@@ -144,6 +162,21 @@ def handle (line : String) : String :=
           if checkCollector evs out then answer model
           else specFail model "collector-files-or-counters-not-conserved"
     | none => badCase "coll fields"
+  | ["byrepo", multi, st, fs] =>
+    -- one shard result through sendByRepository: `multi` = more than one entry in RepoURLs; files are `id:repo`
+    match bool? multi, parseMsgStats st, parseRFiles fs with
+    | some multi, some (some stats), some files =>
+      let sort := fun (l : List RFile) => l.mergeSort fun a b => decide (scoreKey b.id ≤ scoreKey a.id)
+      let out := byRepo sort multi stats files
+      let model := if out.isEmpty then "-" else ";".intercalate (out.map fun p => s!"{showNatList (p.1.map (·.id))}/{showStats stats.c.length p.2}")
+      match parseByRepoOut impl with
+      | none => badCase "impl byrepo"
+      | some got =>
+        let ids : List Nat := (got.flatMap (·.1)).mergeSort (· ≤ ·)
+        let want : List Nat := (files.map (·.id)).mergeSort (· ≤ ·)
+        let ctrOk := (List.range stats.c.length).all fun i => ((got.map (·.2.ctr i)).sum == stats.ctr i)
+        if decide (ids = want) && ctrOk then answer model else specFail model "byrepo-files-or-counters-not-conserved"
+    | _, _, _ => badCase "byrepo fields"
   | ["chunk", mx, fs] =>
     match mx.toNat?, parseFiles fs with
     | some mx, some items =>
